@@ -197,6 +197,7 @@ def action_records(run, F, E):
         for fn in F.find(tk, m):
             if not fn.params or fn.params[0]['n'] != 'stateId_':
                 continue
+            fn = anchors.through_forwarders(F, fn)       # a public wrapper that only forwards to a non-public implementation
             recs = find_record(fn, 'recordTransition')
             ctors = [x for x in ir.all_exprs(fn) if x['k'] == 'ctor' and (x.get('cls') or '').startswith('ffsm2::detail::TransitionT<') and not (x.get('copy') or x.get('move'))]
             ok = len(recs) == 1 and len(ctors) == 1
@@ -242,6 +243,7 @@ def action_records(run, F, E):
             for fn in F.find(tk, m):
                 if len(fn.params) != 1:
                     continue
+                fn = anchors.through_forwarders(F, fn)
                 recs = find_record(fn, 'recordTaskStatus')
                 sets = [x for x in ir.all_exprs(fn) if x['k'] == 'call' and x.get('m') == 'set' and ir.is_expr(x.get('obj'))]
                 ok = len(recs) == 1 and len(sets) == 1
